@@ -101,6 +101,17 @@ def run_model(driver, scripts, fw="twisted"):
     return [reorder_cr(o) for o in out] if fw == "asyncio" else out
 
 
+def run_model_sentops(driver, scripts, fw="twisted"):
+    """the model's history variable `sentOps` (opcode of every frame produced) after each script: list of int lists"""
+    aio = {"aio": int(fw == "asyncio")}
+    out = driver.run([f"ws.ops {cfg_token(dict(s['cfg'], **aio))} {s.get('start', 'open')} " + " ".join(s["ops"]) for s in scripts])
+    res = []
+    for o in out:
+        body, _, _ = o.rpartition("@")
+        res.append([int(x) for x in body.split(",") if x] if not o.startswith("ERROR") and "@" in o else None)
+    return res
+
+
 def first_diff(impl_line, model_line):
     a, b = impl_line.split("|"), model_line.split("|")
     for i, (x, y) in enumerate(zip(a, b)):
